@@ -387,24 +387,37 @@ def tr_apply(tree):
     if not _hdr(loop, 'for axis, (n_lhs, n_rhs) in enumerate(zip(lhs_arr.shape, rhs_arr.shape)): pass'):
         fail(loop, 'unexpected axis loop header')
     body = loop.body
-    # `if n_lhs <= n_rhs: continue`
-    st0 = body[0]
+    # `if n_lhs <= n_rhs: continue`, possibly preceded by size guards (then they also hit axes that are NOT
+    # extended -- recorded in size_guard_before_skip, which the theorems require to be false)
     env = Env(['n_lhs', 'n_rhs'], SHAPE_SUBST)
-    if not (isinstance(st0, ast.If) and not st0.orelse and len(st0.body) == 1 and isinstance(st0.body[0], ast.Continue)):
-        fail(st0, 'expected `if n_lhs <= n_rhs: continue`')
-    skipped = bool_test(st0.test, env)
+    is_skip = lambda st: (isinstance(st, ast.If) and not st.orelse and len(st.body) == 1
+                          and isinstance(st.body[0], ast.Continue))
+    k_skip = [k for k, st in enumerate(body) if is_skip(st)]
+    if len(k_skip) != 1:
+        fail(body[0], 'expected exactly one `if n_lhs <= n_rhs: continue`')
+    k_skip = k_skip[0]
+    hoisted = body[:k_skip]
+    for st in hoisted:
+        if not (isinstance(st, ast.If) and not st.orelse and any(isinstance(x, ast.Raise) for x in ast.walk(st))):
+            fail(st, 'only size guards may precede `if n_lhs <= n_rhs: continue`')
+    skipped = bool_test(body[k_skip].test, env)
+    body = hoisted + body[k_skip + 1:]
     # n_pad_l, n_pad_r
     pads = {}
-    i = 1
-    while i < len(body) and isinstance(body[i], ast.Assign):
-        tg = body[i].targets[0]
+    i = len(hoisted)
+    n_assign = 0
+    while i + n_assign < len(body) and isinstance(body[i + n_assign], ast.Assign):
+        tg = body[i + n_assign].targets[0]
         if not (isinstance(tg, ast.Name) and tg.id in ('n_pad_l', 'n_pad_r')):
             break
-        pads[tg.id] = int_expr(body[i].value, env)
+        pads[tg.id] = int_expr(body[i + n_assign].value, env)
         env.kind[tg.id] = 'int'
-        i += 1
+        n_assign += 1
     if sorted(pads) != ['n_pad_l', 'n_pad_r']:
-        fail(body[1], 'expected n_pad_l and n_pad_r assignments')
+        fail(body[i] if i < len(body) else fn, 'expected n_pad_l and n_pad_r assignments')
+    body = hoisted + body[i + n_assign:]
+    i = 0
+    n_size_guards_after = 0
     size_conds = dict((m, []) for m in MODES)
     len_conds = dict((m, []) for m in MODES)
     nraise = 0
@@ -433,6 +446,8 @@ def tr_apply(tree):
             if not names <= {'n_rhs'}:
                 fail(st, 'size guard may only mention n_rhs')
             nraise += 1
+            if i >= len(hoisted):
+                n_size_guards_after += 1
         elif isinstance(st, ast.For) and any(isinstance(x, ast.Raise) for x in ast.walk(st)):
             if not _hdr(st, "for lr, pad_len in [('left', n_pad_l), ('right', n_pad_r)]: pass"):
                 fail(st, 'unexpected left/right loop header')
@@ -457,6 +472,8 @@ def tr_apply(tree):
     total = sum(1 for x in ast.walk(fn) if isinstance(x, ast.Raise))
     if total != nraise:
         fail(fn, '%d raise statements, %d translated' % (total, nraise))
+    if hoisted and n_size_guards_after:
+        fail(fn, 'size guards both before and after the skip test')
 
     def disj(cs):
         return ' || '.join(cs) if cs else 'false'
@@ -466,6 +483,8 @@ def tr_apply(tree):
         txt += '  | %s => %s\n' % (PMODE[m], 'true' if m in applies else 'false')
     txt += '  end.\n'
     txt += 'Definition padding_skipped (n_lhs n_rhs : Z) : bool := %s.\n' % skipped
+    txt += ('(* are the size guards evaluated BEFORE `if n_lhs <= n_rhs: continue`, i.e. also for axes that are not extended? *)\n'
+            'Definition size_guard_before_skip : bool := %s.\n' % ('true' if hoisted else 'false'))
     txt += 'Definition n_pad_l (off n_lhs n_rhs : Z) : Z := %s.\n' % pads['n_pad_l']
     txt += ('Definition n_pad_r (off n_lhs n_rhs : Z) : Z :=\n  let n_pad_l := n_pad_l off n_lhs n_rhs in %s.\n'
             % pads['n_pad_r'])
